@@ -2,7 +2,7 @@
    Statements only; every proof is [exact Lemmas.<name>]. *)
 From Coq Require Import ZArith QArith List Bool.
 Import ListNotations.
-From GV Require Import Common.Wire gen.Gen_datamut gen.Gen_parse C14.ParseModel C14.Model C14.Lemmas C14.GenEquiv C14.ParseLemmas.
+From GV Require Import Common.Wire gen.Gen_datamut gen.Gen_parse C14.ParseModel C14.Model C14.Lemmas C14.GenEquiv C14.ParseLemmas C14.LinkEquiv.
 Open Scope Z_scope.
 
 (* For every dataset (any stored / pixel / world attributes with any per-axis broadcast flags, any derived attributes
@@ -133,3 +133,14 @@ Theorem padding_erased : forall l r first middle last, blank l -> blank r ->
   m_tag (l ++ (first :: middle ++ [last]) ++ r) = first :: middle ++ [last].
 Proof. exact ParseLemmas.padding_erased. Qed.
 Print Assumptions padding_erased.
+
+(* ---- ComponentLink.compute (the user-function path) is REGENERATED from glue/core/component_link.py on every run
+   (tools/gen/gen_linkcompute.py -> coq/gen/Gen_linkcompute.v) over opaque array operations; [g_compute_func] (Model.v) is
+   that code on the model's arrays.  It is the model's evaluation of a user-function link: fetch the inputs through the
+   view, unbroadcast, broadcast to the common shape, apply the function, (no shape repair needed), broadcast to the shape
+   of the first input.  A ravel / reshape inserted into the source appears in the generated term. ---- *)
+Theorem gen_compute_is_model : forall rv e leaf,
+  (forall c s, In c (dedup (leaves e)) -> leaf c <> VScalar s) ->
+  g_compute_func e leaf = compute_func rv e leaf.
+Proof. exact LinkEquiv.gen_compute_is_model. Qed.
+Print Assumptions gen_compute_is_model.
